@@ -572,6 +572,7 @@ int api_op(const char *name, int lineno)
         bitvector_dealloc(&v);
         return 1;
     }
+#ifndef OPENSSL   /* the internal SHA-1 / AES are not part of the library in the OpenSSL configuration */
     if (!strcmp(name, "sha1")) { /* chunk sizes as ints | msg */
         srtp_sha1_ctx_t c;
         uint32_t h[5];
@@ -588,6 +589,7 @@ int api_op(const char *name, int lineno)
         out_bytes((uint8_t *)h, 20);
         return 1;
     }
+#endif
     if (!strcmp(name, "hmac")) { /* taglen chunk... | key msg */
         srtp_auth_t *a = NULL;
         uint8_t tag[32];
@@ -642,6 +644,7 @@ int api_op(const char *name, int lineno)
         srtp_cipher_dealloc(c);
         return 1;
     }
+#ifndef OPENSSL
     if (!strcmp(name, "aes")) { /* | key(16|32) block(16) */
         srtp_aes_expanded_key_t ek;
         v128_t b;
@@ -653,6 +656,7 @@ int api_op(const char *name, int lineno)
         out_bytes(b.v8, 16);
         return 1;
     }
+#endif
     return 0;
 }
 
